@@ -622,6 +622,7 @@ def _flip(ops, rnd):
     out = json.loads(json.dumps(ops))
     first = True
     flipped = None
+    alt_ext = rnd.choice([".obj", ""])      # one alternative extension per history
     for op in out:
         if op["op"] == "open":
             op["lower"] = not op.get("lower", False)
@@ -644,7 +645,7 @@ def _flip(ops, rnd):
             op["cons"] = flipped
             op["cache"] = not op.get("cache", False)
             op["gz"] = not op.get("gz", False)
-            op["ext"] = ".json" if op.get("ext") != ".json" else ".obj"
+            op["ext"] = ".json" if op.get("ext") != ".json" else alt_ext
             if op.get("athr", 0) > 0:
                 op["athr"], op["ams"] = 0, 0
             else:
